@@ -1,0 +1,10 @@
+//go:build !verif
+
+package protocol
+
+// verifEvent and verifPoint are observation hooks used by the external
+// verification harness. Without the `verif` build tag they are empty and
+// are removed by the compiler.
+func verifEvent(kind string, t *Tunnel, kv ...any) {}
+
+func verifPoint(name string) {}
